@@ -258,4 +258,533 @@ example : ∃ c : Cfg, c.listeners.length = 2 ∧ c.clusters.length = 1 ∧ c.ac
      clusters := [{ id := 3, tcp := false, fronts := [{ addr := 1, key := 4 }], backends := [{ addr := 5 }] }] },
    by decide⟩
 
+/-! ### order -/
+
+/-- every `ActivateListener` is preceded by the `Add…Listener` of the same
+    protocol and address (`seen` = the messages before, latest first) -/
+def actsCovered : List Msg → List Msg → Bool
+  | _, [] => true
+  | seen, m :: ms =>
+    (match m with
+     | .activate p a => seen.contains (.addListener p a)
+     | _ => true) && actsCovered (m :: seen) ms
+
+theorem actsCovered_append (xs : List Msg) : ∀ (seen ys : List Msg),
+    actsCovered seen (xs ++ ys) = (actsCovered seen xs && actsCovered (xs.reverse ++ seen) ys) := by
+  induction xs with
+  | nil => intro seen ys; simp [actsCovered]
+  | cons x xs ih => intro seen ys; simp [actsCovered, ih, Bool.and_assoc]
+
+theorem actsCovered_noAct (xs : List Msg) (h : ∀ m ∈ xs, asActivate m = none) :
+    ∀ seen, actsCovered seen xs = true := by
+  induction xs with
+  | nil => intro seen; rfl
+  | cons x xs ih =>
+    intro seen
+    have hx := h x (by simp)
+    have := ih (fun m hm => h m (by simp [hm])) (x :: seen)
+    cases x <;> simp_all [actsCovered]
+
+theorem actsCovered_acts (ls : List Listener) : ∀ (seen : List Msg),
+    (∀ l ∈ ls, Msg.addListener l.proto l.addr ∈ seen) →
+    actsCovered seen (ls.map fun l => Msg.activate l.proto l.addr) = true := by
+  induction ls with
+  | nil => intro seen _; rfl
+  | cons l ls ih =>
+    intro seen h
+    have h0 := h l (by simp)
+    have := ih (Msg.activate l.proto l.addr :: seen) (fun l' hl' => by
+      have := h l' (by simp [hl']); simp [this])
+    simp [actsCovered, h0, this]
+
+theorem clusters_noAct (c : Cfg) : ∀ m ∈ c.clusters.flatMap clusterMsgs, asActivate m = none := by
+  have : (c.clusters.flatMap clusterMsgs).filterMap asActivate = [] := by
+    rw [filterMap_flatMap]; exact flatMap_nil' _ _ clusterMsgs_activate
+  exact List.filterMap_eq_nil_iff.mp this
+
+/-- **Order.** In the generated list every listener is added before anything
+    refers to it: all `Add…Listener` come first, and each `ActivateListener` is
+    preceded by the `Add…Listener` of the same protocol and address (so a fresh
+    instance never answers "not found" to an activation). -/
+theorem C20_order (c : Cfg) : actsCovered [] (contents c) = true := by
+  have hL : ∀ m ∈ listenerMsgs c, asActivate m = none := by
+    intro m hm; simp [listenerMsgs] at hm; obtain ⟨l, _, rfl⟩ := hm; rfl
+  have hK := clusters_noAct c
+  have hA : actsCovered ((c.clusters.flatMap clusterMsgs).reverse ++ (listenerMsgs c).reverse)
+      (activateMsgs c) = true := by
+    apply actsCovered_acts
+    intro l hl
+    simp only [List.mem_append, List.mem_reverse]
+    right
+    simp only [listenerMsgs, List.mem_map]
+    exact ⟨l, hl, rfl⟩
+  unfold contents
+  rw [actsCovered_append, actsCovered_append, actsCovered_append, actsCovered_noAct _ hL,
+    actsCovered_noAct _ hK]
+  split <;> split <;> simp [hA, actsCovered]
+
+/-! ### applying the list again changes nothing -/
+
+/-- the state already holds what the message asks for -/
+def absorbed (s : St) : Msg → Prop
+  | .addListener p a => hasListener s p a = true
+  | .addCluster c bad => bad = true ∨ s.clusters.contains c = true
+  | .addCert a k => s.certs.contains (a, k) = true
+  | .addFront h _ key => s.fronts.any (fun f => f.1 == h && f.2.1 == key) = true
+  | .addTcpFront u c key => s.tfronts.contains (u, c, key) = true
+  | .addBackend c id a => s.backends.contains (c, id, a) = true
+  | .activate p a => hasListener s p a = true ∧
+      ∀ l ∈ s.listeners, (l.1 == p && l.2.1 == a) = true → l.2.2 = true
+  | .metricsOff => True
+
+theorem map_id_of {α : Type} (f : α → α) (l : List α) (h : ∀ x ∈ l, f x = x) : l.map f = l := by
+  induction l with
+  | nil => rfl
+  | cons x xs ih => simp [h x (by simp), ih (fun y hy => h y (by simp [hy]))]
+
+theorem absorbed_fix (s : St) (m : Msg) (h : absorbed s m) : (dispatch s m).1 = s := by
+  cases m with
+  | addListener p a => simp [absorbed] at h; simp [dispatch, h]
+  | addCluster c bad =>
+    simp only [absorbed] at h
+    simp only [dispatch]
+    rcases h with h | h
+    · simp [h]
+    · split
+      · rfl
+      · simp [h]
+  | addCert a k => simp [absorbed] at h; simp [dispatch, h]
+  | addFront hh c key => simp only [absorbed] at h; simp [dispatch, h]
+  | addTcpFront u c key => simp [absorbed] at h; simp [dispatch, h]
+  | addBackend c i a => simp [absorbed] at h; simp [dispatch, h]
+  | activate p a =>
+    obtain ⟨h1, h2⟩ := h
+    simp only [dispatch, h1, if_true]
+    have : s.listeners.map (fun l => if (l.1 == p && l.2.1 == a) = true then (l.1, l.2.1, true) else l) = s.listeners := by
+      apply map_id_of
+      intro l hl
+      split
+      · next hc => have := h2 l hl hc; cases l with | mk x y => cases y with | mk y z => simp_all
+      · rfl
+    rw [this]
+  | metricsOff => rfl
+
+theorem any_key_map (ls : List (Proto × Nat × Bool)) (p' : Proto) (a' : Nat) (p : Proto) (a : Nat) :
+    (ls.map fun l => if (l.1 == p' && l.2.1 == a') = true then (l.1, l.2.1, true) else l).any
+        (fun l => l.1 == p && l.2.1 == a) = ls.any (fun l => l.1 == p && l.2.1 == a) := by
+  induction ls with
+  | nil => rfl
+  | cons x xs ih =>
+    simp only [List.map_cons, List.any_cons, ih]
+    split <;> rfl
+
+/-- right after a message was dispatched the state holds what it asked for
+    (an activation needs its listener to be there) -/
+theorem absorbed_after (s : St) (m : Msg)
+    (h : ∀ p a, m = .activate p a → hasListener s p a = true) : absorbed (dispatch s m).1 m := by
+  cases m with
+  | addListener p a =>
+    simp only [dispatch]; split
+    · next hc => simpa [absorbed] using hc
+    · simp [absorbed, hasListener]
+  | addCluster c bad =>
+    simp only [dispatch]; split
+    · next hb => exact Or.inl hb
+    · split
+      · next hc => exact Or.inr hc
+      · simp [absorbed]
+  | addCert a k =>
+    simp only [dispatch]; split
+    · next hc => simpa [absorbed] using hc
+    · simp [absorbed]
+  | addFront hh c key =>
+    simp only [dispatch]; split
+    · next hc => simpa [absorbed] using hc
+    · simp [absorbed]
+  | addTcpFront u c key =>
+    simp only [dispatch]; split
+    · next hc => simpa [absorbed] using hc
+    · simp [absorbed]
+  | addBackend c i a =>
+    simp only [dispatch]; split
+    · next hc => simpa [absorbed] using hc
+    · simp [absorbed]
+  | activate p a =>
+    have hl := h p a rfl
+    simp only [dispatch, hl, if_true, absorbed]
+    constructor
+    · simp only [hasListener]; rw [any_key_map]; exact hl
+    · intro l hm hc
+      simp only [List.mem_map] at hm
+      obtain ⟨l0, _, rfl⟩ := hm
+      by_cases hcnd : (l0.1 == p && l0.2.1 == a) = true
+      · rw [if_pos hcnd]
+      · rw [if_neg hcnd] at hc; exact absurd hc hcnd
+  | metricsOff => simp [absorbed]
+
+theorem absorbed_mono_activate (s : St) (p : Proto) (a : Nat) (m' : Msg)
+    (h : absorbed s (.activate p a)) : absorbed (dispatch s m').1 (.activate p a) := by
+  obtain ⟨h1, h2⟩ := h
+  cases m' with
+  | addListener p' a' =>
+    simp only [dispatch]; split
+    · exact ⟨h1, h2⟩
+    · next hn =>
+      refine ⟨?_, ?_⟩
+      · simp only [hasListener, List.any_append] at h1 ⊢; simp [h1]
+      · intro l hl hc
+        simp only [List.mem_append, List.mem_singleton] at hl
+        rcases hl with hl | rfl
+        · exact h2 l hl hc
+        · exfalso
+          simp only [Bool.and_eq_true, beq_iff_eq] at hc
+          obtain ⟨rfl, rfl⟩ := hc
+          exact hn h1
+  | activate p' a' =>
+    simp only [dispatch]; split
+    · refine ⟨?_, ?_⟩
+      · simp only [hasListener]; rw [any_key_map]; exact h1
+      · intro l hl hc
+        simp only [List.mem_map] at hl
+        obtain ⟨l0, hm, rfl⟩ := hl
+        by_cases hcnd : (l0.1 == p' && l0.2.1 == a') = true
+        · rw [if_pos hcnd]
+        · rw [if_neg hcnd] at hc ⊢; exact h2 l0 hm hc
+    · exact ⟨h1, h2⟩
+  | addCluster c b =>
+    simp only [dispatch]; split
+    · exact ⟨h1, h2⟩
+    · split <;> exact ⟨h1, h2⟩
+  | addCert a0 k => simp only [dispatch]; split <;> exact ⟨h1, h2⟩
+  | addFront hh c key => simp only [dispatch]; split <;> exact ⟨h1, h2⟩
+  | addTcpFront u c key => simp only [dispatch]; split <;> exact ⟨h1, h2⟩
+  | addBackend c i a0 => simp only [dispatch]; split <;> exact ⟨h1, h2⟩
+  | metricsOff => exact ⟨h1, h2⟩
+
+/-- nothing a later message does takes it away again -/
+theorem absorbed_mono (s : St) (m m' : Msg) (h : absorbed s m) : absorbed (dispatch s m').1 m := by
+  cases m with
+  | activate p a => exact absorbed_mono_activate s p a m' h
+  | metricsOff => trivial
+  | addListener p a =>
+    simp only [absorbed] at h ⊢
+    cases m' with
+    | activate p' a' =>
+      simp only [dispatch]; split
+      · simp only [hasListener]; rw [any_key_map]; exact h
+      · exact h
+    | _ =>
+      simp only [dispatch] <;> (repeat' split) <;>
+        simp_all [hasListener, List.any_append, any_key_map]
+  | addCluster c b =>
+    simp only [absorbed] at h ⊢
+    cases m' <;> simp only [dispatch] <;> (repeat' split) <;>
+      simp_all [hasListener, List.any_append, any_key_map] <;>
+      (try (rcases h with h | h <;> simp [h]))
+  | addCert a0 k =>
+    simp only [absorbed] at h ⊢
+    cases m' <;> simp only [dispatch] <;> (repeat' split) <;>
+      simp_all [hasListener, List.any_append, any_key_map]
+  | addFront hh c key =>
+    simp only [absorbed] at h ⊢
+    cases m' <;> simp only [dispatch] <;> (repeat' split) <;>
+      simp_all [hasListener, List.any_append, any_key_map]
+  | addTcpFront u c key =>
+    simp only [absorbed] at h ⊢
+    cases m' <;> simp only [dispatch] <;> (repeat' split) <;>
+      simp_all [hasListener, List.any_append, any_key_map]
+  | addBackend c i a0 =>
+    simp only [absorbed] at h ⊢
+    cases m' <;> simp only [dispatch] <;> (repeat' split) <;>
+      simp_all [hasListener, List.any_append, any_key_map]
+
+theorem runMsgs_cons (s : St) (m : Msg) (ms : List Msg) :
+    runMsgs s (m :: ms) = runMsgs (dispatch s m).1 ms := rfl
+
+theorem absorbed_all : ∀ (ms seen : List Msg) (s : St),
+    (∀ m ∈ seen, absorbed s m) → actsCovered seen ms = true →
+    ∀ m, (m ∈ seen ∨ m ∈ ms) → absorbed (runMsgs s ms) m := by
+  intro ms
+  induction ms with
+  | nil => intro seen s hs _ m hm; rcases hm with hm | hm; exact hs m hm; cases hm
+  | cons m0 rest ih =>
+    intro seen s hs hcov m hm
+    simp only [actsCovered, Bool.and_eq_true] at hcov
+    rw [runMsgs_cons]
+    have h0 : absorbed (dispatch s m0).1 m0 := by
+      apply absorbed_after
+      intro p a he
+      subst he
+      have : Msg.addListener p a ∈ seen := by simpa using hcov.1
+      exact hs _ this
+    apply ih (m0 :: seen) (dispatch s m0).1 _ hcov.2 m
+    · rcases hm with hm | hm
+      · exact Or.inl (by simp [hm])
+      · rcases List.mem_cons.mp hm with rfl | hm
+        · exact Or.inl (by simp)
+        · exact Or.inr hm
+    · intro x hx
+      rcases List.mem_cons.mp hx with rfl | hx
+      · exact h0
+      · exact absorbed_mono s x m0 (hs x hx)
+
+theorem runMsgs_fix : ∀ (ms : List Msg) (s : St), (∀ m ∈ ms, absorbed s m) → runMsgs s ms = s := by
+  intro ms
+  induction ms with
+  | nil => intro s _; rfl
+  | cons m rest ih =>
+    intro s h
+    rw [runMsgs_cons, absorbed_fix s m (h m (by simp))]
+    exact ih s (fun x hx => h x (by simp [hx]))
+
+/-- **Reload is idempotent.** Applying the command list of a configuration a
+    second time over the state it produced (from any starting state, in
+    particular a fresh one) leaves that state unchanged: the second pass only
+    meets "already exists" / upsert-with-equal-value / already-active. -/
+theorem C20_reload_idempotent (c : Cfg) (s : St) :
+    runMsgs (runMsgs s (contents c)) (contents c) = runMsgs s (contents c) := by
+  apply runMsgs_fix
+  intro m hm
+  exact absorbed_all (contents c) [] s (by simp) (C20_order c) m (Or.inr hm)
+
+def sampleCfg : Cfg :=
+  { http := [{ proto := .http, addr := 1 }],
+    clusters := [{ id := 3, tcp := false, fronts := [{ addr := 1, key := 4 }], backends := [{ addr := 5 }] }] }
+
+example : runMsgs {} (contents sampleCfg) ≠ ({} : St) := by decide
+
+/-- the order matters for this: an activation that comes before its listener is
+    refused the first time and succeeds the second time -/
+theorem C20_reload_needs_order :
+    runMsgs (runMsgs {} [.activate .http 1, .addListener .http 1]) [.activate .http 1, .addListener .http 1]
+      ≠ runMsgs {} [.activate .http 1, .addListener .http 1] := by decide
+
+/-! ### a fresh instance accepts the list in full — only for files without the
+    three hazards the loader does not check -/
+
+/-- two clusters declare the same route (same address, hostname, path, method):
+    the loader accepts the file, `dispatch` refuses the second `AddHttpFrontend` -/
+def dupFrontWitness : Decl :=
+  { clusters := [{ id := 1, tcp := false, fronts := [{ addr := 5, key := 7 }], backends := [] },
+                 { id := 2, tcp := false, fronts := [{ addr := 5, key := 7 }], backends := [] }] }
+
+theorem C20_accepted_in_full_counterexample_duplicate_frontend :
+    ∃ c, build dupFrontWitness = .ok c ∧ rejected {} (contents c) = [.addFront false 2 7] := by
+  exact ⟨_, rfl, by decide⟩
+
+/-- a `[clusters.x.health_check]` block the state refuses: the loader accepts
+    the file, `AddCluster` is refused, the cluster's frontends and backends are
+    added to a cluster that does not exist -/
+def badHcWitness : Decl :=
+  { clusters := [{ id := 1, tcp := false, hcBad := true, fronts := [{ addr := 5, key := 7 }], backends := [{ addr := 9 }] }] }
+
+theorem C20_accepted_in_full_counterexample_health_check :
+    ∃ c, build badHcWitness = .ok c ∧ rejected {} (contents c) = [.addCluster 1 true] ∧
+      (runMsgs {} (contents c)).clusters = [] ∧ (runMsgs {} (contents c)).fronts ≠ [] := by
+  exact ⟨_, rfl, by decide⟩
+
+/-- two backends of one cluster with the same `backend_id` and address: both
+    messages are accepted, one backend is loaded -/
+def dupBackendWitness : Decl :=
+  { clusters := [{ id := 1, tcp := true, fronts := [], backends := [{ addr := 9, id := 4 }, { addr := 9, id := 4 }] }] }
+
+theorem C20_declared_equals_loaded_counterexample_duplicate_backend :
+    ∃ c, build dupBackendWitness = .ok c ∧ rejected {} (contents c) = [] ∧
+      ((contents c).filterMap asBackend).length = 2 ∧ (runMsgs {} (contents c)).backends.length = 1 := by
+  exact ⟨_, rfl, by decide⟩
+
+/-! ### acceptance in full, under the hypotheses the loader does not establish -/
+
+inductive RKey where
+  | listener (p : Proto) (a : Nat)
+  | front (https : Bool) (key : Nat)
+  | tfront (udp : Bool) (c key : Nat)
+  deriving DecidableEq
+
+/-- the key under which `dispatch` can refuse an Add as "already exists" -/
+def rejKey : Msg → Option RKey
+  | .addListener p a => some (.listener p a)
+  | .addFront h _ k => some (.front h k)
+  | .addTcpFront u c k => some (.tfront u c k)
+  | _ => none
+
+def isBadCluster : Msg → Bool
+  | .addCluster _ bad => bad
+  | _ => false
+
+/-- what is in the state came from a message already dispatched -/
+structure Sound (seen : List Msg) (s : St) : Prop where
+  listeners : ∀ p a, hasListener s p a = true → RKey.listener p a ∈ seen.filterMap rejKey
+  fronts : ∀ h k, s.fronts.any (fun f => f.1 == h && f.2.1 == k) = true → RKey.front h k ∈ seen.filterMap rejKey
+  tfronts : ∀ u c k, s.tfronts.contains (u, c, k) = true → RKey.tfront u c k ∈ seen.filterMap rejKey
+
+theorem mem_keys_cons (m : Msg) (seen : List Msg) (k : RKey) (h : k ∈ seen.filterMap rejKey) :
+    k ∈ (m :: seen).filterMap rejKey := by
+  rw [List.filterMap_cons]; split
+  · exact h
+  · exact List.mem_cons_of_mem _ h
+
+theorem mem_keys_head (m : Msg) (seen : List Msg) (k : RKey) (h : rejKey m = some k) :
+    k ∈ (m :: seen).filterMap rejKey := by
+  rw [List.filterMap_cons, h]; exact List.mem_cons_self
+
+theorem sound_of_same {seen : List Msg} {s s' : St} (m : Msg) (h : Sound seen s)
+    (hl : ∀ p a, hasListener s' p a = hasListener s p a) (hf : s'.fronts = s.fronts)
+    (ht : s'.tfronts = s.tfronts) : Sound (m :: seen) s' :=
+  ⟨fun p a hh => mem_keys_cons _ _ _ (h.listeners p a (by rw [← hl]; exact hh)),
+   fun hh k hq => mem_keys_cons _ _ _ (h.fronts hh k (by rw [← hf]; exact hq)),
+   fun u c k hq => mem_keys_cons _ _ _ (h.tfronts u c k (by rw [← ht]; exact hq))⟩
+
+theorem sound_step (seen : List Msg) (s : St) (m : Msg) (h : Sound seen s) :
+    Sound (m :: seen) (dispatch s m).1 := by
+  cases m with
+  | addListener p a =>
+    simp only [dispatch]; split
+    · exact sound_of_same _ h (fun _ _ => rfl) rfl rfl
+    · refine ⟨?_, fun hh k hq => mem_keys_cons _ _ _ (h.fronts hh k hq),
+        fun u c k hq => mem_keys_cons _ _ _ (h.tfronts u c k hq)⟩
+      intro p' a' hh
+      simp only [hasListener, List.any_append, Bool.or_eq_true] at hh
+      rcases hh with hh | hh
+      · exact mem_keys_cons _ _ _ (h.listeners p' a' hh)
+      · apply mem_keys_head
+        simp at hh
+        simp [rejKey, hh.1, hh.2]
+  | addFront hh0 c key =>
+    simp only [dispatch]; split
+    · exact sound_of_same _ h (fun _ _ => rfl) rfl rfl
+    · refine ⟨fun p a hq => mem_keys_cons _ _ _ (h.listeners p a hq), ?_,
+        fun u c k hq => mem_keys_cons _ _ _ (h.tfronts u c k hq)⟩
+      intro h' k hh
+      simp only [List.any_append, Bool.or_eq_true] at hh
+      rcases hh with hh | hh
+      · exact mem_keys_cons _ _ _ (h.fronts h' k hh)
+      · apply mem_keys_head
+        simp at hh
+        simp [rejKey, hh.1, hh.2]
+  | addTcpFront u0 c0 k0 =>
+    simp only [dispatch]; split
+    · exact sound_of_same _ h (fun _ _ => rfl) rfl rfl
+    · refine ⟨fun p a hq => mem_keys_cons _ _ _ (h.listeners p a hq),
+        fun hh k hq => mem_keys_cons _ _ _ (h.fronts hh k hq), ?_⟩
+      intro u c k hh
+      by_cases he : (u, c, k) = (u0, c0, k0)
+      · apply mem_keys_head
+        simp only [Prod.mk.injEq] at he
+        simp [rejKey, he.1, he.2.1, he.2.2]
+      · apply mem_keys_cons
+        apply h.tfronts
+        simp only [List.contains_eq_mem, List.mem_append, List.mem_singleton, decide_eq_true_eq] at hh ⊢
+        rcases hh with hh | hh
+        · exact hh
+        · exact absurd hh he
+  | activate p a =>
+    simp only [dispatch]; split
+    · exact sound_of_same _ h (fun p' a' => by simp only [hasListener]; rw [any_key_map]) rfl rfl
+    · exact sound_of_same _ h (fun _ _ => rfl) rfl rfl
+  | addCluster c b =>
+    simp only [dispatch]
+    split
+    · exact sound_of_same _ h (fun _ _ => rfl) rfl rfl
+    · split <;> exact sound_of_same _ h (fun _ _ => rfl) rfl rfl
+  | addCert a k0 =>
+    simp only [dispatch]
+    split <;> exact sound_of_same _ h (fun _ _ => rfl) rfl rfl
+  | addBackend c i a =>
+    simp only [dispatch]
+    split <;> exact sound_of_same _ h (fun _ _ => rfl) rfl rfl
+  | metricsOff => exact sound_of_same _ h (fun _ _ => rfl) rfl rfl
+
+theorem key_not_seen {seen ms : List Msg} {m0 : Msg} {k : RKey}
+    (hn : (seen.filterMap rejKey ++ (m0 :: ms).filterMap rejKey).Nodup) (hk : rejKey m0 = some k) :
+    k ∉ seen.filterMap rejKey := by
+  intro hmem
+  rw [List.filterMap_cons, hk] at hn
+  have := (List.nodup_append.mp hn).2.2 k hmem k List.mem_cons_self
+  exact this rfl
+
+theorem nodup_shift {seen ms : List Msg} {m0 : Msg}
+    (hn : (seen.filterMap rejKey ++ (m0 :: ms).filterMap rejKey).Nodup) :
+    ((m0 :: seen).filterMap rejKey ++ ms.filterMap rejKey).Nodup := by
+  rw [List.filterMap_cons] at hn ⊢
+  cases hk : rejKey m0 with
+  | none => simpa [hk] using hn
+  | some k =>
+    simp only [hk] at hn ⊢
+    exact (List.perm_middle.nodup_iff).mp hn
+
+theorem accepted_all : ∀ (ms seen : List Msg) (s : St),
+    Sound seen s → (∀ m ∈ seen, absorbed s m) →
+    (seen.filterMap rejKey ++ ms.filterMap rejKey).Nodup →
+    (∀ m ∈ ms, isBadCluster m = false) → actsCovered seen ms = true →
+    rejected s ms = [] := by
+  intro ms
+  induction ms with
+  | nil => intros; rfl
+  | cons m0 rest ih =>
+    intro seen s hs habs hn hbad hcov
+    simp only [actsCovered, Bool.and_eq_true] at hcov
+    have hacc : (dispatch s m0).2 = true := by
+      cases m0 with
+      | addListener p a =>
+        have hk := key_not_seen hn (k := .listener p a) rfl
+        have : hasListener s p a = false := by
+          cases hq : hasListener s p a with
+          | false => rfl
+          | true => exact absurd (hs.listeners p a hq) hk
+        simp [dispatch, this]
+      | addFront h c key =>
+        have hk := key_not_seen hn (k := .front h key) rfl
+        have : s.fronts.any (fun f => f.1 == h && f.2.1 == key) = false := by
+          cases hq : s.fronts.any (fun f => f.1 == h && f.2.1 == key) with
+          | false => rfl
+          | true => exact absurd (hs.fronts h key hq) hk
+        simp only [dispatch, this]; rfl
+      | addTcpFront u c key =>
+        have hk := key_not_seen hn (k := .tfront u c key) rfl
+        have : s.tfronts.contains (u, c, key) = false := by
+          cases hq : s.tfronts.contains (u, c, key) with
+          | false => rfl
+          | true => exact absurd (hs.tfronts u c key hq) hk
+        simp only [dispatch, this]; rfl
+      | addCluster c b =>
+        have : b = false := by simpa [isBadCluster] using hbad (.addCluster c b) (by simp)
+        subst this
+        simp only [dispatch, Bool.false_eq_true, if_false]; split <;> rfl
+      | activate p a =>
+        have hmem : Msg.addListener p a ∈ seen := by simpa using hcov.1
+        have : hasListener s p a = true := habs _ hmem
+        simp [dispatch, this]
+      | addCert a k => simp only [dispatch]; split <;> rfl
+      | addBackend c i a => simp only [dispatch]; split <;> rfl
+      | metricsOff => rfl
+    have h0 : absorbed (dispatch s m0).1 m0 := by
+      apply absorbed_after
+      intro p a he
+      subst he
+      have : Msg.addListener p a ∈ seen := by simpa using hcov.1
+      exact habs _ this
+    have := ih (m0 :: seen) (dispatch s m0).1 (sound_step seen s m0 hs)
+      (fun x hx => by
+        rcases List.mem_cons.mp hx with rfl | hx
+        · exact h0
+        · exact absorbed_mono s x m0 (habs x hx))
+      (nodup_shift hn) (fun m hm => hbad m (by simp [hm])) hcov.2
+    simp [rejected, hacc, this]
+
+/-- **A fresh instance accepts the whole list** — provided no two messages carry
+    the same listener key, route key or tcp frontend, and no cluster carries a
+    health check the state refuses. The loader establishes the first (listener
+    addresses are unique) but none of the others: see the two
+    `C20_accepted_in_full_counterexample_*` theorems. -/
+theorem C20_accepted_in_full_partial (c : Cfg)
+    (hkeys : ((contents c).filterMap rejKey).Nodup)
+    (hhc : ∀ m ∈ contents c, isBadCluster m = false) :
+    rejected {} (contents c) = [] := by
+  apply accepted_all (contents c) [] {} ⟨by simp [hasListener], by simp, by simp⟩ (by simp)
+    (by simpa using hkeys) hhc (C20_order c)
+
+example : ((contents sampleCfg).filterMap rejKey).Nodup ∧ ∀ m ∈ contents sampleCfg, isBadCluster m = false := by
+  decide
+
 end Sozu.Config
